@@ -21,9 +21,13 @@ pub fn setup<S: crate::src_any::Src>(s: &mut S) {
   unsafe { BUS.a0 = s.u16(); BUS.v0 = s.u8(); BUS.a1 = s.u16(); BUS.v1 = s.u8(); BUS.other = s.u8(); BUS.n = 0; }
 }
 pub fn reset_log() { unsafe { BUS.n = 0; } }
+pub fn save() -> (u16, u8, u16, u8, u8) { unsafe { (BUS.a0, BUS.v0, BUS.a1, BUS.v1, BUS.other) } }
+pub fn restore(b: (u16, u8, u16, u8, u8)) { unsafe { BUS.a0 = b.0; BUS.v0 = b.1; BUS.a1 = b.2; BUS.v1 = b.3; BUS.other = b.4; } }
 pub fn snapshot() -> ([Ev; MAXEV], usize) { unsafe { (BUS.ev, BUS.n) } }
 /// native replay: route the real bus functions to this recording bus
 #[cfg(not(kani))]
 pub fn install_hooks() { unsafe { crate::mem::verif_hook::READ_OVERRIDE = Some(hook_read); crate::mem::verif_hook::WRITE_OVERRIDE = Some(hook_write); } }
 #[cfg(not(kani))]
-pub fn remove_hooks() { unsafe { crate::mem::verif_hook::READ_OVERRIDE = None; crate::mem::verif_hook::WRITE_OVERRIDE = None; } }
+pub fn install_log_only() { unsafe { crate::mem::verif_hook::WRITE_TAP = Some(hook_write); } }
+#[cfg(not(kani))]
+pub fn remove_hooks() { unsafe { crate::mem::verif_hook::READ_OVERRIDE = None; crate::mem::verif_hook::WRITE_OVERRIDE = None; crate::mem::verif_hook::WRITE_TAP = None; } }
